@@ -81,8 +81,108 @@ checked_div = Fn(F, "checked_div", impl="BigInt", ret="res", props=["C05", "C03"
                  ],
                  rewrites=[MAPINTO])
 
+checked_mod = Fn(F, "checked_mod", impl="BigInt", ret="res", props=["C05", "C03"],
+                 ensures=LOUD + [
+                     C("mod_by_zero_is_error", "rhs.val() == 0 <==> res is Err", ["C05"]),
+                     C("sign_of_dividend", "res is Ok ==> res->Ok_0.val() == num_bigint::trem(self.val(), rhs.val()) && res->Ok_0.size is None", ["C05"]),
+                 ],
+                 rewrites=[Rewrite("(&self.bigint % &rhs.bigint)", "core::ops::Rem::rem(&self.bigint, &rhs.bigint)", rule=R3,
+                                   why="operator on reference operands -> UFCS desugaring")])
+
+checked_shl = Fn(F, "checked_shl", impl="BigInt", ret="res", props=["C05", "C19", "C03"],
+                 ensures=LOUD + [
+                     C("exact", "res is Ok ==> rhs.val() >= 0 && res->Ok_0.val() == self.val() * pow2(rhs.val() as nat) && res->Ok_0.size is None", ["C05"]),
+                     C("err_only_beyond_cap", "res is Err ==> !(0 <= rhs.val() <= u32::MAX) || bitlen(abs(self.val())) + rhs.val() >= BIGINT_MAX_BITS", ["C05", "C19"]),
+                     C("result_within_cap", "res is Ok ==> bitlen(abs(res->Ok_0.val())) <= BIGINT_MAX_BITS", ["C19"]),
+                 ],
+                 rewrites=[
+                     Rewrite(r"\.map\(\|rhs: usize\| \(&self\.bigint << ([^;]+?)\)\.into\(\)\)",
+                             r".map(|rhs: usize| -> (r: BigInt) ensures r.bigint == num_bigint::mk(self.val() * pow2(rhs as nat)), r.size is None { core::ops::Shl::shl(&self.bigint, \1).into() })", regex=True,
+                             rule="R3+R4", why="closure header; operator on a reference operand -> UFCS"),
+                     Rewrite(".map_err(|_| ())", ".map_err(|_e: num_bigint::TryFromBigIntError| -> (r: ()) { () })", rule="R4",
+                             why="Verus rejects `_` closure parameters; the parameter is named and typed"),
+                 ],
+                 inserts=[Insert("        (&rhs.bigint)\n            .try_into()\n            .map(", "        proof { lemma_bitlen_shl(self.val(), rhs.val() as nat); }\n", where="before", why="lemma call (erased)")])
+
+checked_shr = Fn(F, "checked_shr", impl="BigInt", ret="res", props=["C05", "C03"],
+                 ensures=LOUD + [
+                     C("floor", "res is Ok ==> rhs.val() >= 0 && res->Ok_0.val() == self.val() / (pow2(rhs.val() as nat) as int) && res->Ok_0.size is None", ["C05"]),
+                     C("err_only_beyond_usize", "res is Err <==> !(0 <= rhs.val() <= usize::MAX)", ["C05", "C19"]),
+                 ],
+                 rewrites=[
+                     Rewrite(r"\.map\(\|rhs: usize\| \(&self\.bigint >> ([^;]+?)\)\.into\(\)\)",
+                             r".map(|rhs: usize| -> (r: num_bigint::BigInt) ensures r == num_bigint::mk(self.val() / (pow2(rhs as nat) as int)) { core::ops::Shr::shr(&self.bigint, \1).into() })", regex=True,
+                             rule="R3+R4", why="closure header; operator on a reference operand -> UFCS"),
+                     Rewrite(".map_err(|_| ())", ".map_err(|_e: num_bigint::TryFromBigIntError| -> (r: ()) { () })", rule="R4",
+                             why="Verus rejects `_` closure parameters; the parameter is named and typed"),
+                 ])
+
+SLICE_BITS = "forall|j: nat| #[trigger] bit_of(res.val(), j) == (j < left - right && bit_of(self.val(), (right + j) as nat))"
+slice_ = Fn(F, "slice", impl="BigInt", ret="res", props=["C05", "C04", "C03"],
+            requires=[C("ordered_bounds", "left >= right", ["C03"])],
+            ensures=[
+                C("size", "res.size == Some((left - right) as usize)", ["C05", "C04"]),
+                C("selects_named_bits", "self.fits_size() ==> (" + SLICE_BITS + ")", ["C05", "C04"]),
+                C("unsigned_result", "self.fits_size() ==> 0 <= res.val() < pow2((left - right) as nat)", ["C05", "C04"]),
+            ],
+            rewrites=[Rewrite("for i in (0..(left - right)).rev()", "for i in it: (0..(left - right)).rev()", rule="R5",
+                              why="ghost iterator named so the invariant can count iterations")],
+            loops={1: Loop(invariant=[
+                C("count", "it.index@ <= left - right"),
+                C("bits", "forall|j: nat| #[trigger] bit_of(result.val(), j) == (left - right - it.index@ <= j < left - right && bit_of(self.val(), (right + j) as nat))"),
+                C("bound", "0 <= result.val() && result.val() + pow2((left - right - it.index@) as nat) <= pow2((left - right) as nat)"),
+            ])},
+            inserts=[
+                Insert("                return self.clone();", "                proof { let s = self.size->0; if self.fits_size() { assert forall|j: nat| #[trigger] bit_of(self.val(), j) == (j < s && bit_of(self.val(), (0 + j) as nat)) by { if j >= s { lemma_bit_of_small(self.val(), s as nat, j); } } } }\n", where="before"),
+                Insert("        for i in it:", "        proof { assert forall|j: nat| !bit_of(0, j) by { lemma_bit_of_zero(j); } }\n", where="before"),
+                Insert("        result.size = Some(left - right);", "        proof { vstd::arithmetic::power2::lemma2_to64(); }\n", where="before"),
+                Insert("            result.set_bit(", "            let ghost prev = result.val();\n            proof { assert(i == left - right - 1 - it.index@); }\n", where="before"),
+                Insert("                self.get_bit(right + i));", "\n            proof { let b = bit_of(self.val(), (right + i) as nat); assert forall|j: nat| #[trigger] bit_of(result.val(), j) == (left - right - it.index@ - 1 <= j < left - right && bit_of(self.val(), (right + j) as nat)) by { lemma_set_bit_get(prev, i as nat, b, j); }; vstd::arithmetic::power2::lemma_pow2_unfold((left - right - it.index@) as nat); }\n", where="after"),
+            ])
+
+checked_slice = Fn(F, "checked_slice", impl="BigInt", ret="res", props=["C05", "C03"],
+                   ensures=LOUD + [
+                       C("inverted_bounds_is_error", "left < right <==> res is Err", ["C05"]),
+                       C("size", "res is Ok ==> res->Ok_0.size == Some((left - right) as usize)", ["C05"]),
+                       C("selects_named_bits", "res is Ok && self.fits_size() ==> (forall|j: nat| #[trigger] bit_of(res->Ok_0.val(), j) == (j < left - right && bit_of(self.val(), (right + j) as nat)))", ["C05"]),
+                   ])
+
+LS = "(lhs_slice.0 - lhs_slice.1)"
+RS = "(rhs_slice.0 - rhs_slice.1)"
+CONCAT_BITS = ("forall|j: nat| #[trigger] bit_of(res.val(), j) == (if j < %s { bit_of(rhs.val(), (rhs_slice.1 + j) as nat) }"
+               " else { j < %s + %s && bit_of(self.val(), (lhs_slice.1 + j - %s) as nat) })" % (RS, LS, RS, RS))
+concat = Fn(F, "concat", impl="BigInt", ret="res", props=["C05", "C03", "C19"],
+            requires=[C("lhs_bounds", "lhs_slice.0 >= lhs_slice.1", ["C03"]),
+                      C("rhs_bounds", "rhs_slice.0 >= rhs_slice.1", ["C03"]),
+                      C("size_fits", "%s + %s <= usize::MAX" % (LS, RS), ["C19"])],
+            ensures=[
+                C("size", "res.size == Some((%s + %s) as usize)" % (LS, RS), ["C05"]),
+                C("joins_named_bits", CONCAT_BITS, ["C05"]),
+                C("unsigned_result", "0 <= res.val() < pow2((%s + %s) as nat)" % (LS, RS), ["C05"]),
+            ],
+            loops={
+                1: Loop(invariant=[
+                    C("bits", "forall|j: nat| #[trigger] bit_of(result.val(), j) == (%s <= j < %s + i && bit_of(self.val(), (lhs_slice.1 + j - %s) as nat))" % (RS, RS, RS)),
+                    C("sizes", "lhs_size == %s && rhs_size == %s && lhs_size + rhs_size <= usize::MAX && lhs_slice.0 >= lhs_slice.1" % (LS, RS)),
+                ]),
+                2: Loop(invariant=[
+                    C("bits", "forall|j: nat| #[trigger] bit_of(result.val(), j) == (if j < %s { j < i && bit_of(rhs.val(), (rhs_slice.1 + j) as nat) }"
+                              " else { j < %s + %s && bit_of(self.val(), (lhs_slice.1 + j - %s) as nat) })" % (RS, LS, RS, RS)),
+                    C("sizes", "lhs_size == %s && rhs_size == %s" % (LS, RS)),
+                ]),
+            },
+            inserts=[
+                Insert("        for i in 0..(lhs_slice.0 - lhs_slice.1)", "        proof { assert forall|j: nat| !bit_of(0, j) by { lemma_bit_of_zero(j); } }\n", where="before"),
+                Insert("            result.set_bit(", "            let ghost prev = result.val();\n", where="before", occ=1),
+                Insert("                self.get_bit(lhs_slice.1 + i));", "\n            proof { let b = bit_of(self.val(), (lhs_slice.1 + i) as nat); assert forall|j: nat| #[trigger] bit_of(result.val(), j) == bit_of(set_bit_spec(prev, (i + rhs_size) as nat, b), j) by {}; assert forall|j: nat| #[trigger] bit_of(set_bit_spec(prev, (i + rhs_size) as nat, b), j) == (if j == i + rhs_size { b } else { bit_of(prev, j) }) by { lemma_set_bit_get(prev, (i + rhs_size) as nat, b, j); } }\n", where="after"),
+                Insert("            result.set_bit(", "            let ghost prev = result.val();\n", where="before", occ=2),
+                Insert("                rhs.get_bit(rhs_slice.1 + i));", "\n            proof { let b = bit_of(rhs.val(), (rhs_slice.1 + i) as nat); assert forall|j: nat| #[trigger] bit_of(set_bit_spec(prev, i as nat, b), j) == (if j == i { b } else { bit_of(prev, j) }) by { lemma_set_bit_get(prev, i as nat, b, j); } }\n", where="after"),
+                Insert("        result.size = Some(lhs_size + rhs_size);", "        proof { lemma_bits_bound(result.val(), (lhs_size + rhs_size) as nat); }\n", where="before"),
+            ])
+
 ALL_FNS = [new, min_size, sign, size_or_min_size, set_bit, get_bit, maybe_into, checked_into, checked_into_nonzero_usize,
-           checked_add, checked_sub, checked_mul, checked_div]
+           checked_add, checked_sub, checked_mul, checked_div, checked_mod, checked_shl, checked_shr,
+           slice_, checked_slice, concat]
 
 
 def items(mode, slot="util", only=None):
